@@ -14,7 +14,7 @@ func TestCatalogueAgainstStdlib(t *testing.T) {
 	n := 0
 	for _, ls := range LitShapes() {
 		for _, ds := range DistShapes() {
-			for enc := 0; enc < 3; enc++ {
+			for enc := 0; enc < 4; enc++ {
 				lit, dist := NewCode(ls.Lens), NewCode(ds.Lens)
 				alpha := SeqAlphabet(lit, dist)
 				var syms []Sym
